@@ -134,15 +134,15 @@ Definition tr_check (c : tr_case) : bool :=
   && ok (transform_ip T vt t) lip && ok (Some (transform_ipr T vt t)) lpost.
 
 (* embedded: derivation, the value lark returned with transformer=T, the tree without *)
-Definition emb_case := (list string * list string * bool * dtree * value * stree)%type.
+Definition emb_case := (list string * list string * bool * bool * dtree * value * stree)%type.
 
 Definition emb_check (c : emb_case) : bool :=
-  let '(rules, toks, mp, d, v, t) := c in
+  let '(rules, toks, vt, mp, d, v, t) := c in
   let T := sym_T rules toks in
   wf_dtree mp d
-  && match embedded T mp d with Some v' => value_eqb v v' | None => false end
-  && match embedded_run T mp (postorder d) with Some [v'] => value_eqb v v' | _ => false end
-  && match shape mp d with Some t' => stree_eqb t t' && value_eqb v (tr T true t') | None => false end.
+  && match embedded T vt mp d with Some v' => value_eqb v v' | None => false end
+  && match embedded_run T vt mp (postorder d) with Some [v'] => value_eqb v v' | _ => false end
+  && match shape mp d with Some t' => stree_eqb t t' && value_eqb v (tr T vt t') | None => false end.
 
 Inductive c16_case := CaseTR (c : tr_case) | CaseEMB (c : emb_case).
 Definition c16_check (c : c16_case) : bool :=
